@@ -258,10 +258,10 @@ def ExactOrigin (content : Bytes) (variants : List Bytes) (m : M) : Prop :=
 def CompoundOrigin (A : Acr) (search replace : Bytes) (styles : List Style) (m : M) : Prop :=
   ∃ ident c, findCompound A ident search replace styles = some c ∧ m.variant = ident ∧ m.text = c.replacement
 
-theorem findEnhanced_origin {A : Acr} {content search replace : Bytes} {variants : List Bytes} {styles : List Style}
-    {m : M} (h : m ∈ findEnhanced A content search replace variants styles) :
+theorem findEnhancedG_origin {trim : Bool} {A : Acr} {content search replace : Bytes} {variants : List Bytes}
+    {styles : List Style} {m : M} (h : m ∈ findEnhancedG trim A content search replace variants styles) :
     ExactOrigin content variants m ∨ CompoundOrigin A search replace styles m := by
-  unfold findEnhanced at h
+  unfold findEnhancedG at h
   simp only [] at h
   rcases mem_foldl_resolve h with h | h
   · cases h
@@ -291,6 +291,10 @@ theorem findEnhanced_origin {A : Acr} {content search replace : Bytes} {variants
       · cases hm
       · cases hm
         exact ⟨ident, c, hfc, (findCompound_sound hfc).1, rfl⟩
+
+theorem findEnhanced_origin {A : Acr} {content search replace : Bytes} {variants : List Bytes} {styles : List Style}
+    {m : M} (h : m ∈ findEnhanced A content search replace variants styles) :
+    ExactOrigin content variants m ∨ CompoundOrigin A search replace styles m := findEnhancedG_origin h
 
 /-- an exact hit followed by an alphanumeric byte is rejected unless that byte is an upper-case letter right after a
     lower-case one (a hump boundary) -/
@@ -1100,5 +1104,14 @@ theorem contains_body_false {c : UInt8} (hc : isAlpha c = false) (h95 : ((95 : U
     | succ k ih => simp only [List.replicate_succ, List.any_cons, h95, ih, Bool.or_self]
   simp only [contains, List.any_append, hw (l := xs) (fun r hr => by simp [hr]), hw (l := ys) (fun r hr => by simp [hr]),
     hw (l := zs) (fun r hr => by simp [hr]), hr, Bool.or_self]
+
+theorem dropWhile_hyphen_head (p : Bytes) : (p.dropWhile (· == 45)).head? ≠ some 45 := by
+  induction p with
+  | nil => simp
+  | cons c cs ih =>
+    by_cases h : c = 45
+    · subst h; simpa [List.dropWhile] using ih
+    · have : (c == 45) = false := by simpa using h
+      simp [List.dropWhile, this, h]
 
 end Compound
